@@ -136,9 +136,36 @@ impl<'a> PrettyPrinter<'a> {
                     }
                     leaf.kind() == SyntaxKind::Linebreak
                 });
+        // A body that starts with another item on the line of the marker (`10. - a`), or a
+        // description that starts with one on the line of the term (`/ term: - a`): the column of
+        // that inner marker separates what belongs to the inner item (lines indented further) from
+        // what belongs to the outer one. It depends on the width of the marker or the term, not on
+        // the indent unit, so such a body is aligned to the column where it starts.
+        let aligned_body = (item.children())
+            .skip_while(|it| item.kind() == SyntaxKind::TermItem && it.kind() != SyntaxKind::Colon)
+            .take_while(|it| !(it.kind() == SyntaxKind::Space && it.text().has_linebreak()))
+            .find(|it| it.kind() == SyntaxKind::Markup)
+            .filter(|body| {
+                body.children().next().is_some_and(|first| {
+                    matches!(
+                        first.kind(),
+                        SyntaxKind::ListItem | SyntaxKind::EnumItem | SyntaxKind::TermItem
+                    )
+                })
+            });
         self.convert_flow_like(ctx, item, |ctx, child| match child.kind() {
             SyntaxKind::Markup if empty_term.is_some_and(|term| std::ptr::eq(term, child)) => {
                 FlowItem::spaced(self.arena.nil())
+            }
+            SyntaxKind::Markup if aligned_body.is_some_and(|body| std::ptr::eq(body, child)) => {
+                FlowItem::spaced(
+                    self.convert_markup_impl(
+                        ctx,
+                        child.cast().expect("markup"),
+                        MarkupScope::Item,
+                    )
+                    .align(),
+                )
             }
             SyntaxKind::ListMarker | SyntaxKind::EnumMarker | SyntaxKind::TermMarker => {
                 FlowItem::spaced(self.arena.text(child.text().as_str()))
@@ -166,33 +193,8 @@ impl<'a> PrettyPrinter<'a> {
             }
             _ => FlowItem::none(),
         })
-        .nest(self.list_item_indent(item) as isize)
-    }
-
-    /// The indentation of the lines of an item after its first one. Typst derives the nesting
-    /// of items from indentation, so it can never be zero. And when the body starts with another
-    /// item on the line of the marker (`10. - a`), the column of that inner marker, one blank
-    /// behind the outer marker, separates what belongs to the inner item (lines indented further,
-    /// which get the indentation of the inner item on top) from what belongs to the outer one.
-    fn list_item_indent(&self, item: &'a SyntaxNode) -> usize {
-        let indent = self.config.tab_spaces.max(1);
-        let mut children = item.children();
-        let marker_len = children.next().map_or(1, |marker| marker.text().len());
-        let starts_with_item = children
-            .take_while(|it| !(it.kind() == SyntaxKind::Space && it.text().has_linebreak()))
-            .find(|it| it.kind() == SyntaxKind::Markup)
-            .and_then(|body| body.children().next())
-            .is_some_and(|first| {
-                matches!(
-                    first.kind(),
-                    SyntaxKind::ListItem | SyntaxKind::EnumItem | SyntaxKind::TermItem
-                )
-            });
-        if starts_with_item {
-            marker_len + 1
-        } else {
-            indent
-        }
+        // Typst derives the nesting of items from indentation, so it can never be zero.
+        .nest(self.config.tab_spaces.max(1) as isize)
     }
 
     fn convert_markup_impl(
